@@ -13,6 +13,7 @@
 // Sub-checks
 //   adapt.step      one sample per call: e = d - y bit-exactly, a-priori y from coeffs() read before the sample,
 //                   y / e / coeffs against the long-double recursion (1e-9 relative)
+//   adapt.long      the same per-sample drive over 200 (thorough 1000) unlocked samples on one object, reduced parameter set
 //   rls.batch       RLS coefficients after every sample against the long-double normal-equation solution
 //   adapt.hist      all framings x all lock schedules: locked frames are the fixed FIR with coeffs() and leave it
 //                   bit-identical, every history agrees with the per-sample drive under the same lock pattern
@@ -327,6 +328,7 @@ struct StepOpt {
     bool with_ref = false;     // compare with the long-double recursion
     bool ref_allowed = true;   // false: step size outside the stable range (comparison skipped, identities kept)
     ld condmax = 1e8L;
+    const char* tag = "";   // prefix of the worst-margin key
 };
 
 // Drives a fresh real filter one sample per call with the given per-sample lock flags.
@@ -433,7 +435,7 @@ static bool step_drive(Ctx& ctx, const Cfg& cfg, uint64_t cfg_hash, const std::v
                 const ld ry = ys > 0 ? std::abs(TT<T>::up(y[0]) - yr) / ys : 0;
                 const ld re = ys > 0 ? std::abs(TT<T>::up(e[0]) - er) / ys : 0;
                 const ld rc = cn > 0 ? dn / cn : (dn > 0 ? 1 : 0);
-                const std::string key = std::string(KNAME[cfg.kind]) + " vs long-double recursion, rel err" +
+                const std::string key = std::string(opt.tag) + KNAME[cfg.kind] + " vs long-double recursion, rel err" +
                                         (cfg.kind == K_RLS ? (ref.cond > 1e6L ? " (cond 1e6..1e8)" : ref.cond > 1e4L ? " (cond 1e4..1e6)" : " (cond < 1e4)") : "");
                 ctx.worst(key, (double)std::max(rc, std::max(ry, re)));
                 if (ry > REL || re > REL || rc > REL) {
@@ -581,7 +583,7 @@ static void hist_case(Ctx& ctx, const Cfg& cfg, uint64_t cfg_hash, const std::ve
         if (so.ref_allowed) rts[m] = ref_trace(cfg, x, d, lock, so.condmax);
         if (!step_drive<T>(ctx, cfg, cfg_hash, x, d, lock, so, model[m], P().kv("drive", "per-sample").kv("lockmask", m))) return;
     }
-    long long bitident = 0, frames = 0, lockedframes = 0, refcmp = 0, refskip = 0, reads[NPOL] = {0, 0, 0};
+    long long bitident = 0, frames = 0, lockedframes = 0, refcmp = 0, refskip = 0, rejected = 0, reads[NPOL] = {0, 0, 0};
     const std::string refkey = std::string("hist: ") + KNAME[cfg.kind] + " history vs lock-aware long-double recursion, rel err";
     // compositions: bit i of comp set = frame boundary after granule i (i = 0..G-2)
     for (int comp = 0; comp < (1 << (G - 1)); ++comp) {
@@ -760,8 +762,83 @@ static void hist_case(Ctx& ctx, const Cfg& cfg, uint64_t cfg_hash, const std::ve
                 if (f.state_hash(cfg_hash) == mt.final_state) ctx.note("adapt.hist: final state bit-identical to the per-sample drive");
                 else ctx.note("adapt.hist: final state equal within tolerance only");
                 ++ctx.traces;
+
+                // rejected calls: process(x', d') with len(x') != len(d') inserted at every frame boundary in turn must throw
+                // and leave y / e / coeffs() of the history bit-identical to the history without it
+                if (pol == POL_EVERY) {
+                    struct Rec {
+                        std::vector<T> y, e;
+                        std::vector<base_array<T>> c;
+                    };
+                    auto run = [&](int rb, int var, Rec& r, bool& threw) -> bool {
+                        Filt<T> g(cfg);
+                        r.y.clear(), r.e.clear(), r.c.clear();
+                        threw = false;
+                        auto reject = [&]() {
+                            const int nxr = var == 0 ? L + 2 : 1, ndr = var == 0 ? 1 : L + 2;   // x' longer / shorter than d'
+                            base_array<T> xr(nxr), dr(ndr), yy, ee;
+                            for (int i = 0; i < nxr; ++i) xr[i] = TT<T>::down(cld(7.5L + i, -3.25L));
+                            for (int i = 0; i < ndr; ++i) dr[i] = TT<T>::down(cld(-2.5L, 1.5L + i));
+                            try {
+                                g.process(xr, dr, yy, ee);
+                            } catch (...) {
+                                threw = true;
+                            }
+                            ++ctx.transitions;
+                        };
+                        int p0 = 0;
+                        for (int fi = 0; fi < F; ++fi) {
+                            if (rb == fi) reject();
+                            g.lock((lk >> fi) & 1);
+                            const int len = fs[fi] * gs;
+                            base_array<T> y, e;
+                            g.process(to_frame<T>(x, p0, p0 + len), to_frame<T>(d, p0, p0 + len), y, e);
+                            ++ctx.transitions;
+                            if (y.size() != len || e.size() != len) {
+                                ctx.fail(site, fmt("result sizes y=%d e=%d", y.size(), e.size()), fmt("%d, %d", len, len), detail("size", fi, p0));
+                                return false;
+                            }
+                            for (int i = 0; i < len; ++i) r.y.push_back(y[i]), r.e.push_back(e[i]);
+                            r.c.push_back(g.coeffs());
+                            p0 += len;
+                        }
+                        if (rb == F) reject();
+                        r.c.push_back(g.coeffs());
+                        return true;
+                    };
+                    Rec base, rr;
+                    bool threw = false;
+                    if (!run(-1, 0, base, threw)) return;
+                    for (int rb = 0; rb <= F; ++rb)
+                        for (int var = 0; var < 2; ++var) {
+                            if (!run(rb, var, rr, threw)) return;
+                            ++rejected;
+                            auto rdetail = [&](const char* sub, int k) {
+                                return P().kv("sub", sub).kv("framing", comp).kv("locks", lk).kv("boundary", rb).kv("xlonger", var == 0).kv("k", k);
+                            };
+                            if (!threw) {
+                                ctx.fail(site, fmt("process(x', d') with len(x')=%d, len(d')=%d did not throw", var == 0 ? L + 2 : 1, var == 0 ? 1 : L + 2), "exception: len(x) != len(d)",
+                                         rdetail("rejected_nothrow", -1));
+                                return;
+                            }
+                            for (size_t k = 0; k < base.y.size(); ++k)
+                                if (!same_bits(rr.y[k], base.y[k]) || !same_bits(rr.e[k], base.e[k])) {
+                                    ctx.fail(site, fmt("after a rejected call before frame %d: y[%zu] = %.17Lg, without the rejected call %.17Lg", rb, k, TT<T>::up(rr.y[k]).real(), TT<T>::up(base.y[k]).real()),
+                                             "a rejected call (exception) leaves y / e / coeffs() of the history bit-identical", rdetail("rejected_call", (int)k));
+                                    return;
+                                }
+                            for (size_t k = 0; k < base.c.size(); ++k)
+                                if (!same_bits(rr.c[k], base.c[k])) {
+                                    ctx.fail(site, fmt("after a rejected call before frame %d: coeffs() read #%zu differs from the history without the rejected call", rb, k),
+                                             "a rejected call (exception) leaves y / e / coeffs() of the history bit-identical", rdetail("rejected_call_coeffs", (int)k));
+                                    return;
+                                }
+                            ++ctx.traces;
+                        }
+                }
             }
     }
+    ctx.note("adapt.hist: histories with an inserted rejected call (len(x') != len(d'))", rejected);
     ctx.note("adapt.hist: frames executed", frames);
     ctx.note("adapt.hist: locked frames", lockedframes);
     ctx.note("adapt.hist: frames bit-identical to the per-sample drive", bitident);
@@ -864,6 +941,41 @@ int main(int argc, char** argv) {
                         if (ok) ctx.nontrivial();
                         ctx.note(std::string("adapt.step ") + KNAME[cfg.kind] + (cplx ? " complex" : " real"));
                     }
+
+    // ---- adapt.long: long unlocked horizons (>= 200 quick / 1000 thorough samples on one object), white input, reduced
+    // parameter set; RLS with lambda < 1 so that the reference stays well conditioned
+    {
+        const int HL = TH ? 1000 : 200;
+        const std::vector<int> ll = TH ? std::vector<int>{2, 3, 4, 8, 16} : std::vector<int>{2, 4, 8};
+        for (int len : ll) {
+            const Cfg sel[] = {Cfg{K_LMS, len, 0.01, 1, 0, 0},     Cfg{K_LMS, len, 0.1, 0.999, 0, 0}, Cfg{K_NLMS, len, 0.5, 1, 0, 0},  Cfg{K_NLMS, len, 1, 0.999, 0, 0},
+                               Cfg{K_RLS, len, 0, 0, 0.9, 1},      Cfg{K_RLS, len, 0, 0, 0.95, 1e2},  Cfg{K_RLS, len, 0, 0, 0.99, 1},  Cfg{K_RLS, len, 0, 0, 0.99, 1e2}};
+            for (const Cfg& cfg : sel)
+                for (int cplx = 0; cplx < 2; ++cplx)
+                    for (int dl : {2, 3}) {
+                        P p = cfg_params(cfg, cplx);
+                        p.kv("x", XL[0]).kv("d", DL[dl]).kv("horizon", HL);
+                        if (!ctx.take("adapt.long", p)) continue;
+                        const std::vector<cld> x = make_x(0, cplx, HL);
+                        const std::vector<cld> d = make_d(dl, cplx, x, make_h0(dl, cplx, len));
+                        StepOpt so;
+                        so.with_ref = true;
+                        so.ref_allowed = lms_stable(cfg, x);
+                        so.tag = "long horizon: ";
+                        if (!so.ref_allowed) ctx.note("adapt.long: LMS step outside the stable range for this letter (reference comparison skipped)");
+                        bool ok;
+                        if (cplx) {
+                            Trace<cmplx_t> tr;
+                            ok = step_drive<cmplx_t>(ctx, cfg, fnv(p.str()), x, d, {}, so, tr);
+                        } else {
+                            Trace<real_t> tr;
+                            ok = step_drive<real_t>(ctx, cfg, fnv(p.str()), x, d, {}, so, tr);
+                        }
+                        if (ok) ctx.nontrivial();
+                        ctx.note(std::string("adapt.long ") + KNAME[cfg.kind] + (cplx ? " complex" : " real"));
+                    }
+        }
+    }
 
     // ---- rls.batch: RLS part of the box against the normal equations (complex data: oracle self-check only)
     for (int len : lens)
